@@ -240,7 +240,8 @@ impl Run {
                             failure_persistence: None,
                             rng_seed: RngSeed::Fixed(seed),
                             max_shrink_iters: 20000,
-                            max_shrink_time: 0,
+                            // a failing case that hangs costs a watchdog period per shrink step: bound the time, not only the steps
+                            max_shrink_time: std::env::var("VERIF_SHRINK_MS").ok().and_then(|v| v.parse().ok()).unwrap_or(300_000),
                             max_global_rejects: 65536,
                             verbose: 0,
                             ..PtConfig::default()
